@@ -68,7 +68,7 @@ def FlagTracksLoop (d : Dev) : Prop := d.loops = if d.loopFlag then 1 else 0
 /-- Device acquisition state is consistent with whether the camera is streaming. -/
 def Consistent (d : Dev) : Prop :=
   FlagTracksLoop d ∧ d.enabled = d.loopFlag ∧ d.lock = (if d.loopFlag then 1 else 0) ∧
-    d.acquiring = d.loopFlag
+    d.acquiring = d.loopFlag ∧ (d.loopFlag = false → d.chan = none)
 
 /-- The loaded description (if any) is the complete one (`TLParamsLocked`, `AcquisitionStart`,
 `AcquisitionStop` present with the right interface), and streaming implies a description. -/
@@ -78,10 +78,22 @@ def CtxtOk (d : Dev) : Prop :=
 /-- Consistent acquisition state with a complete description. -/
 def Good (d : Dev) : Prop := Consistent d ∧ CtxtOk d
 
+/-- Steps of the start/stop protocol (as opposed to open/close of the handles, description
+retrieval and parameter reads). -/
+def isProtocol : Sub → Bool
+  | .enable | .disable | .lockSet _ | .acqStart | .acqStop | .loopStart | .loopStop => true
+  | _ => false
+
+/-- An effect that cannot disturb the acquisition state: it succeeded, or it is not a step of
+the start/stop protocol (a refused `genapi` on a closed handle, a failed `open`, …). -/
+def Harmless (e : Effect) : Prop := e.out = .ok ∨ isProtocol e.sub = false
+
+def AllHarmless (seg : List Effect) : Prop := ∀ e ∈ seg, Harmless e
+
 /-- State required after `close`. -/
 def Clean (d : Dev) : Prop :=
   d.loopFlag = false ∧ d.loops = 0 ∧ d.lock = 0 ∧ d.enabled = false ∧ d.acquiring = false ∧
-    d.ctrlOpen = false ∧ d.strmOpen = false ∧ d.cache = Cache.empty
+    d.ctrlOpen = false ∧ d.strmOpen = false ∧ d.cache = Cache.empty ∧ d.chan = none
 
 /-! ### The device-visible state as a function of the effect trace alone -/
 
